@@ -239,8 +239,10 @@ pub fn write_file_with(r: &mut Rng, c: &mut Counters, style: &Style, version: &s
                 Some(data) => {
                     let mut d = a.obj.as_dict().expect("stream dict").clone();
                     if style.indirect_length && w.r.chance(1, 2) {
-                        let lid = next_free; next_free += 1;
-                        d.set("Length", Object::Reference((lid, 0))); pending_lengths.push((lid, data.len() as i64)); hit(w.c, "stream.indirect_length");
+                        // two streams of equal length may legally share one Length object
+                        let shared = pending_lengths.iter().find(|(_, l)| *l == data.len() as i64).map(|(id, _)| *id).filter(|_| w.r.chance(1, 2));
+                        let lid = match shared { Some(id) => { hit(w.c, "stream.indirect_length_shared"); id } None => { let id = next_free; next_free += 1; pending_lengths.push((id, data.len() as i64)); id } };
+                        d.set("Length", Object::Reference((lid, 0))); hit(w.c, "stream.indirect_length");
                     } else { d.set("Length", Object::Integer(data.len() as i64)); }
                     w.dict(&d); w.opt_ws();
                     w.out.extend_from_slice(b"stream");
@@ -354,8 +356,10 @@ pub fn write_file_with(r: &mut Rng, c: &mut Counters, style: &Style, version: &s
                 let maxf2 = entries.values().map(|e| e.1).max().unwrap_or(0);
                 let maxf3 = entries.values().map(|e| e.2).max().unwrap_or(0);
                 let need = |v: u64| -> usize { let mut n = 1; while n < 8 && v >= (1u64 << (8 * n)) { n += 1; } n };
-                let w2 = need(maxf2) + if style.lexical_freedom { r.usize(3) } else { 0 };
-                let w3 = if maxf3 == 0 && style.lexical_freedom && r.chance(1, 3) { hit(c, "xrefstm.w3_zero"); 0 } else { need(maxf3) + if style.lexical_freedom { r.usize(2) } else { 0 } };
+                let w2 = (need(maxf2) + if style.lexical_freedom { *r.pick(&[0usize, 0, 1, 2, 3, 4, 5, 6]) } else { 0 }).min(8);
+                if w2 > 4 { hit(c, "xrefstm.field2_wider_than_4"); }
+                let w3 = if maxf3 == 0 && style.lexical_freedom && r.chance(1, 3) { hit(c, "xrefstm.w3_zero"); 0 } else { (need(maxf3) + if style.lexical_freedom { *r.pick(&[0usize, 0, 1, 3, 5]) } else { 0 }).min(8) };
+                if w3 > 4 { hit(c, "xrefstm.field3_wider_than_4"); }
                 let all_type1 = entries.values().all(|e| e.0 == 1) && ri > 0;
                 let w1 = if all_type1 && style.lexical_freedom && r.chance(1, 2) { hit(c, "xrefstm.w1_zero"); 0 } else { 1 };
                 let mut nums: Vec<u32> = entries.keys().cloned().collect();
